@@ -127,7 +127,8 @@ Section Global.
   Variable P : list pop.
   Variable C : list cop.
   Variable strict : bool.
-  Hypothesis Hcheck : check_all P C strict = true.
+  Variable cstrict : bool.
+  Hypothesis Hcheck : check_all P C strict cstrict = true.
 
   Inductive greach (behs : list beh) : gst -> Prop :=
   | gr_init : greach behs (ginit behs)
@@ -177,37 +178,41 @@ Section Global.
     - eapply quiescent_no_tx; eauto. eapply gi_loc; eauto.
   Qed.
 
+  Lemma step_p_ok : forall behs g lc i g', ginv_ok behs g -> gstep_p P C lc i g = Some g' -> ginv_ok behs g'.
+  Proof.
+    intros behs g lc i g' H Hs. unfold gstep_p in Hs.
+    destruct (nth_error (g_invs g) i) as [v|] eqn:Hi; [|discriminate].
+    destruct (may_run (g_running g) i) eqn:Hm; [|discriminate].
+    rewrite (env_zero behs g i H) in Hs.
+    destruct (lstep P C (g_beh v) 0 lc (g_loc v)) as [s'|] eqn:Hl; [|discriminate].
+    inversion Hs; subst g'; clear Hs. split; cbn.
+    + erewrite map_update_nth_same; [apply (gi_beh _ _ H) | exact Hi | reflexivity].
+    + intros j w Hj. destruct (Nat.eq_dec i j) as [<-|Hne].
+      * rewrite (update_nth_same _ _ i _ v Hi) in Hj. inversion Hj; subst w; cbn.
+        eapply lr_step; [eapply gi_loc; eauto | exact Hl].
+      * rewrite update_nth_other in Hj by exact Hne. eapply gi_loc; eauto.
+    + intros j w Hj k. destruct (Nat.eq_dec i j) as [<-|Hne].
+      * rewrite (update_nth_same _ _ i _ v Hi) in Hj. inversion Hj; subst w; cbn.
+        destruct (negb (c_running (g_loc v)) && c_running s'); [|eapply gi_inh; eauto].
+        unfold parent_table. apply parent_table_from_no_tx. intros j w Hj' Hne.
+        eapply idle_no_tx; eauto.
+      * rewrite update_nth_other in Hj by exact Hne. eapply gi_inh; eauto.
+    + intros j w Hj. destruct (Nat.eq_dec i j) as [<-|Hne].
+      * rewrite (update_nth_same _ _ i _ v Hi) in Hj. inversion Hj; subst w; cbn.
+        destruct (p_running s') eqn:Hp; [left; reflexivity | right; right; reflexivity].
+      * rewrite update_nth_other in Hj by exact Hne.
+        destruct (gi_thr _ _ H j w Hj) as [Hr | Hrest]; [|right; exact Hrest].
+        rewrite Hr in Hm. cbn in Hm. apply Nat.eqb_eq in Hm. congruence.
+    + intros k Hk. destruct (p_running s') eqn:Hp; [|discriminate]. inversion Hk; subst k.
+      exists {| g_loc := s'; g_beh := g_beh v;
+                g_inh := if negb (c_running (g_loc v)) && c_running s' then parent_table (g_invs g) i else g_inh v |}.
+      split; [eapply update_nth_same; eauto | exact Hp].
+  Qed.
+
   Lemma step_ok : forall behs g c g', ginv_ok behs g -> gstep P C c g = Some g' -> ginv_ok behs g'.
   Proof.
     intros behs g c g' H Hs.
-    destruct c as [i | i | i]; cbn [gstep] in Hs.
-    - (* the parent coroutine of invocation i *)
-      destruct (nth_error (g_invs g) i) as [v|] eqn:Hi; [|discriminate].
-      destruct (may_run (g_running g) i) eqn:Hm; [|discriminate].
-      rewrite (env_zero behs g i H) in Hs.
-      destruct (lstep P C (g_beh v) 0 LParent (g_loc v)) as [s'|] eqn:Hl; [|discriminate].
-      inversion Hs; subst g'; clear Hs. split; cbn.
-      + erewrite map_update_nth_same; [apply (gi_beh _ _ H) | exact Hi | reflexivity].
-      + intros j w Hj. destruct (Nat.eq_dec i j) as [<-|Hne].
-        * rewrite (update_nth_same _ _ i _ v Hi) in Hj. inversion Hj; subst w; cbn.
-          eapply lr_step; [eapply gi_loc; eauto | exact Hl].
-        * rewrite update_nth_other in Hj by exact Hne. eapply gi_loc; eauto.
-      + intros j w Hj k. destruct (Nat.eq_dec i j) as [<-|Hne].
-        * rewrite (update_nth_same _ _ i _ v Hi) in Hj. inversion Hj; subst w; cbn.
-          destruct (negb (c_running (g_loc v)) && c_running s'); [|eapply gi_inh; eauto].
-          unfold parent_table. apply parent_table_from_no_tx. intros j w Hj' Hne.
-          eapply idle_no_tx; eauto.
-        * rewrite update_nth_other in Hj by exact Hne. eapply gi_inh; eauto.
-      + intros j w Hj. destruct (Nat.eq_dec i j) as [<-|Hne].
-        * rewrite (update_nth_same _ _ i _ v Hi) in Hj. inversion Hj; subst w; cbn.
-          destruct (p_running s') eqn:Hp; [left; reflexivity | right; right; reflexivity].
-        * rewrite update_nth_other in Hj by exact Hne.
-          destruct (gi_thr _ _ H j w Hj) as [Hr | Hrest]; [|right; exact Hrest].
-          rewrite Hr in Hm. cbn in Hm. apply Nat.eqb_eq in Hm. congruence.
-      + intros k Hk. destruct (p_running s') eqn:Hp; [|discriminate]. inversion Hk; subst k.
-        exists {| g_loc := s'; g_beh := g_beh v;
-                  g_inh := if negb (c_running (g_loc v)) && c_running s' then parent_table (g_invs g) i else g_inh v |}.
-        split; [eapply update_nth_same; eauto | exact Hp].
+    destruct c as [i | i | i | i]; cbn [gstep] in Hs; [eapply step_p_ok; eauto | | | eapply step_p_ok; eauto].
     - (* a step of the child of invocation i *)
       destruct (nth_error (g_invs g) i) as [v|] eqn:Hi; [|discriminate].
       rewrite (env_zero behs g i H) in Hs.
@@ -282,7 +287,7 @@ Section Global.
 
   (* ---- the whole system never deadlocks ---------------------------------------------------- *)
   Lemma choice_in : forall g i c, i < List.length (g_invs g) ->
-    c = GParent i \/ c = GChild i \/ c = GKill i -> In c (g_choices g).
+    c = GParent i \/ c = GChild i \/ c = GKill i \/ c = GCancel i -> In c (g_choices g).
   Proof.
     intros g i c Hlt Hc. unfold g_choices. apply in_flat_map. exists i. split; [apply in_seq; lia|].
     cbn. intuition.
@@ -302,13 +307,13 @@ Section Global.
     assert (Hlt : i < List.length (g_invs g)) by (apply nth_error_Some; congruence).
     pose proof (gi_loc _ _ H i v Hv) as Hloc.
     unfold g_enabled. apply existsb_exists.
-    destruct (progress P C strict Hcheck (g_beh v) (g_loc v) Hloc Hd) as [Hp | Hc].
+    destruct (progress P C strict cstrict Hcheck (g_beh v) (g_loc v) Hloc Hd) as [Hp | Hc].
     - exists (GParent i). split; [eapply choice_in; eauto|].
-      cbn [gstep]. rewrite Hv, Hm, (env_zero behs g i H).
+      cbn [gstep]. unfold gstep_p. rewrite Hv, Hm, (env_zero behs g i H).
       unfold parent_enabled, step_enabled in Hp. destruct (lstep P C (g_beh v) 0 LParent (g_loc v)); [reflexivity | discriminate].
     - exists (GChild i). split; [eapply choice_in; eauto|].
       cbn [gstep]. rewrite Hv, (env_zero behs g i H).
-      pose proof (child_free P C strict Hcheck (g_beh v) (g_loc v) Hloc Hc) as Hf. unfold step_enabled in Hf.
+      pose proof (child_free P C strict cstrict Hcheck (g_beh v) (g_loc v) Hloc Hc) as Hf. unfold step_enabled in Hf.
       destruct (lstep P C (g_beh v) 0 LChild (g_loc v)); [reflexivity | discriminate].
   Qed.
 
@@ -324,7 +329,7 @@ Section Global.
   Lemma gmeasure_decreases : forall behs g c g', greach behs g -> gstep P C c g = Some g' -> gmeasure g' < gmeasure g.
   Proof.
     intros behs g c g' Hr Hs. pose proof (reach_ok behs g Hr) as H.
-    destruct c as [i | i | i]; cbn [gstep] in Hs;
+    destruct c as [i | i | i | i]; cbn [gstep] in Hs; unfold gstep_p in Hs;
       (destruct (nth_error (g_invs g) i) as [v|] eqn:Hi; [|discriminate]);
       try (destruct (may_run (g_running g) i); [|discriminate]);
       rewrite (env_zero behs g i H) in Hs.
@@ -335,6 +340,9 @@ Section Global.
       inversion Hs; subst g'. unfold gmeasure; cbn. eapply lsum_update_lt; [exact Hi|]. cbn.
       eapply measure_decreases; eauto. eapply gi_loc; eauto.
     - destruct (lstep P C (g_beh v) 0 LKill (g_loc v)) as [s'|] eqn:Hl; [|discriminate].
+      inversion Hs; subst g'. unfold gmeasure; cbn. eapply lsum_update_lt; [exact Hi|]. cbn.
+      eapply measure_decreases; eauto. eapply gi_loc; eauto.
+    - destruct (lstep P C (g_beh v) 0 LCancel (g_loc v)) as [s'|] eqn:Hl; [|discriminate].
       inversion Hs; subst g'. unfold gmeasure; cbn. eapply lsum_update_lt; [exact Hi|]. cbn.
       eapply measure_decreases; eauto. eapply gi_loc; eauto.
   Qed.
@@ -399,13 +407,14 @@ Section Global.
 
   Lemma all_done_clean : forall behs g, greach behs g -> g_all_done g = true ->
     (forall b, In b behs -> b_unp b && negb strict = false) ->
+    (forall v, In v (g_invs g) -> cancelled_at_wait (g_loc v) && negb cstrict = false) ->
     g_parent_fds g = 0 /\ g_unreaped g = 0.
   Proof.
-    intros behs g Hr Hd Hun. pose proof (reach_ok behs g Hr) as H.
+    intros behs g Hr Hd Hun Hcan. pose proof (reach_ok behs g Hr) as H.
     unfold g_all_done in Hd. rewrite forallb_forall in Hd.
     assert (Hc : forall v, In v (g_invs g) -> clean_exit (g_loc v) = true).
     { intros v Hv. pose proof (Hd v Hv) as Hdv. apply In_nth_error in Hv as [i Hi].
-      eapply done_clean; eauto; [eapply gi_loc; eauto|].
+      eapply done_clean; eauto; [eapply gi_loc; eauto| |apply Hcan; eapply nth_error_In; eauto].
       apply Hun. rewrite <- (gi_beh _ _ H). apply in_map_iff. exists v. split; [reflexivity|].
       eapply nth_error_In; eauto. }
     split; apply lsum_zero; intros v Hv; now apply clean_exit_counts, Hc.
@@ -419,7 +428,7 @@ Section Global.
     destruct (gi_own _ _ H k Hk) as [w [Hw Hp]]. rewrite Hv in Hw. inversion Hw; subst w.
     eapply nonblocking; eauto; [eapply gi_loc; eauto|].
     unfold sync_blocked. rewrite Hp. cbn [andb]. unfold parent_enabled.
-    cbn [gstep] in Hs. rewrite Hv, Hk in Hs. cbn [may_run] in Hs. rewrite Nat.eqb_refl, (env_zero behs g k H) in Hs.
+    cbn [gstep] in Hs. unfold gstep_p in Hs. rewrite Hv, Hk in Hs. cbn [may_run] in Hs. rewrite Nat.eqb_refl, (env_zero behs g k H) in Hs.
     destruct (lstep P C (g_beh v) 0 LParent (g_loc v)); [discriminate | reflexivity].
   Qed.
 End Global.
